@@ -1,6 +1,6 @@
 """Registry of engines and checks (what ./check runs for each property)."""
 
-SETUP_VARIANTS = ["plain", "asan", "fips", "tsan", "fips-tsan", "noparam"]
+SETUP_VARIANTS = ["plain", "asan", "fips", "tsan", "fips-tsan", "noparam", "fips-noparam"]
 
 ENGINES = {
     "hashmb": dict(src=["harness/hashmb.c", "harness/hashbig.c", "harness/hashalgs.c"]),
@@ -256,6 +256,7 @@ def c17_tasks(tier):
     for k in range(2 if q else 4):
         w("fips", "--mode", "stress", "--pool", 8 if k % 2 == 0 else 16, "--from", k * 100000000, "--count", 200000 if q else 20000000, "--budget-s", 60 if q else 900, "--watchdog", 3000)
     w("fips", "--mode", "stress", "--pool", 64, "--from", 0, "--count", 5000 if q else 400000, "--budget-s", 60 if q else 900, "--watchdog", 3000)
+    w("fips", "--mode", "stress", "--pool", 4, "--from", 7000000, "--count", 3000, "--stall-s", 6 if q else 12, "--budget-s", 120, "--watchdog", 3000)
     w("fips-tsan", "--mode", "stress", "--pool", 8, "--from", 0, "--count", 5000 if q else 300000, "--budget-s", 60 if q else 900, "--watchdog", 3000)
     return t
 
@@ -568,13 +569,15 @@ CHECKS = {
         level_text=("fault enumeration: the finite space (exported isal_ entry point) x (self-test state: failed / passed / not run with an injected failing verdict / not run with a passing "
                     "verdict) is enumerated completely, each cell with seeded random otherwise-valid arguments; XTS entries additionally with identical / last-byte-different / "
                     "first-byte-different key pairs"),
-        rule=("FIPS_MODE build, self-test bodies intercepted with --wrap (counted; verdict injected: fail without running, fail after really running, pass without running, really run). "
+        rule=("FIPS_MODE build, self-test bodies intercepted with --wrap (counted; verdict injected: fail without running, fail after really running, only the SHA group failing, pass without running, really run; and the real self-tests made to fail by themselves "
+              "through one flipped bit in the writable known-answer data of any non-empty subset of the groups SHA-512 / GCM / CBC / XTS during the first call only - the failed verdict must stick on the next call). The same cells also run on a FIPS_MODE build with SAFE_PARAM=n. "
               "For every cell the return code must be SELF_TEST (approved algorithm while failed / failing), FIPS_INVALID_ALGO (MD5, SM3, multi-hash, rolling; every state) or 0; when a call "
               "must be refused every argument object must be byte-identical afterwards and no dispatch slot (all 64 re-armed before the call) may have been resolved, i.e. no dispatched "
               "crypto routine entered; on a first call the AES and SHA self-tests must each be entered exactly once, no slot may be resolved before they start, and the verdict must be "
               "published. The entry list is checked against nm of the FIPS build. distinct_nontrivial = distinct (entry, state, injection mode) and (xts entry, key-pair variant)"),
         assumptions=TRUST + ["crypto work is observed through resolution of re-armed dispatch slots (every approved algorithm reaches its kernels through a dispatched entry)"],
-        tasks=lambda tier: [dict(engine="fips", variant="fips", args=["--prop", "C13", "--from", f, "--count", c]) for (f, c) in split(48 if tier == "quick" else 4000, 8 if tier == "quick" else 16)],
+        tasks=lambda tier: [dict(engine="fips", variant="fips", args=["--prop", "C13", "--from", f, "--count", c]) for (f, c) in split(48 if tier == "quick" else 4000, 8 if tier == "quick" else 16)]
+        + [dict(engine="fips", variant="fips-noparam", args=["--prop", "C13", "--from", f, "--count", c]) for (f, c) in split(12 if tier == "quick" else 600, 4)],
         post=isal_cover_post, exhaustive_key="fips_calls", exhaustive_over="(isal_ entry point) x (self-test state) cells",
     ),
     "C17": dict(
@@ -586,7 +589,8 @@ CHECKS = {
               "isal_aes_keyexp_128 or isal_sha256_ctx_mgr_init) with the trap flag set; after every instruction a SIGTRAP handler hands the CPU to the thread the schedule names "
               "(pause = yield), so every instruction boundary of asm_check_self_tests_status / asm_set_self_tests_status / isal_self_tests is a preemption point. Random schedules "
               "switch with probability 2-42% per protocol instruction; systematic schedules enumerate every (preemption position, target thread) tuple. Stress mode: 1..64 pooled threads "
-              "released from a spinning barrier with random start delays and random time spent inside the self-tests, real self-tests in 0.5% of the rounds, status re-armed between rounds; "
+              "released from a spinning barrier with random start delays and random time spent inside the self-tests, real self-tests in 0.5% of the rounds (a tenth of them with a natural verdict: flipped known-answer bits in any subset "
+              "of the SHA/GCM/CBC/XTS groups), one round whose winner is stalled for 6 s (12 s in thorough) inside the self-tests while the others wait, status re-armed between rounds; "
               "also on a ThreadSanitizer build. Per run: the AES and SHA self-tests must each be entered exactly once, every call must return the injected verdict, no call may return "
               "before the self-tests finished (one atomic logical clock), the verdict must be published, a spinning thread must return within 400 of its own steps after publication, "
               "and a thread may not spin for more than 200000 steps. distinct_nontrivial = distinct schedules (hash of the (target thread, protocol step) switch sequence) and "
